@@ -11,6 +11,10 @@ VER_OF = {"2": "2", "3.0": "3", "3.1": "3", "4": "4"}
 PREFIX_OF = {"2": "", "3.0": "CVSS:3.0/", "3.1": "CVSS:3.1/", "4": "CVSS:4.0/"}
 
 
+MODES = []  # distinct (version, all_metrics) modes run so far in THIS process, in order of first use
+RECENT = []  # the last interactive sessions run in THIS process (history part of a witness)
+
+
 class ReadLimit(Exception):
     pass
 
@@ -56,6 +60,10 @@ def run_dialogue(vtag, all_metrics, answers, no_colors=True, limit=None, version
             r["exc_repr"] = repr(e)
     finally:
         sys.stdin, sys.stdout = old
+    if [vtag, bool(all_metrics)] not in MODES:
+        MODES.append([vtag, bool(all_metrics)])
+    RECENT.append([vtag, bool(all_metrics), list(answers)[:400]])
+    del RECENT[:-4]
     r["out"] = fout.getvalue()
     r["reads"] = min(fin.reads, fin.limit)
     r["consumed_all"] = fin.tell() >= len(text)
